@@ -2,11 +2,13 @@
 
 _lua_set_timeout (lua/_sandbox_phase1.lua) looks up `os.time` and `debug.sethook` in the HOST
 global table at call time, so replacing those two globals through ctx.lua.globals() gives a
-logical, load-independent clock: the timeout hook polls os.time once per 100 000 VM
-instructions; every poll advances virtual time by TICK seconds."""
+logical, load-independent clock: the timeout hook polls os.time once per `count` VM instructions
+(the count it was armed with); every poll advances virtual time by count * SEC_PER_INSTR seconds,
+i.e. TICK = 0.25 s per 100 000 instructions whatever period the tree under test uses."""
 from __future__ import annotations
 
 TICK = 0.25
+SEC_PER_INSTR = TICK / 100000
 
 
 class VClock:
@@ -19,6 +21,7 @@ class VClock:
         self.max_polls = max_polls
         self.on_overrun = None    # callback when polls exceed max_polls (endless loop with hook armed but error swallowed)
         self.armed = False
+        self.period = 100000      # count of the hook armed last
         G = ctx.lua.globals()
         self.G = G
         self.real_sethook = G.debug.sethook
@@ -30,7 +33,7 @@ class VClock:
         if a and a[0] is not None:
             return self.real_time(*a)
         self.polls += 1
-        self.t += TICK
+        self.t += self.period * SEC_PER_INSTR
         if self.polls > self.max_polls and self.on_overrun is not None:
             self.on_overrun(self)
         return int(self.t)
@@ -42,7 +45,15 @@ class VClock:
         else:
             self.events.append(("arm", self.polls))
             self.armed = True
+            self.note_period(a)
         return self.real_sethook(*a)
+
+    def note_period(self, a):
+        try:
+            if len(a) >= 3 and a[2]:
+                self.period = max(1, int(a[2]))
+        except Exception:
+            pass
 
     def advance(self, seconds):
         self.t += seconds
